@@ -1,11 +1,15 @@
 """U2 — decoder side: tonic/src/codec/decode.rs + buffer.rs (DecodeBuf).
 Carries C01 (chunking independence), C05 (flag rule), C06 (limit before reserve), C07 (hostile input)."""
 from vxlib import Unit, Clause
+from units import common
 
 D = 'tonic/src/codec/decode.rs'
 
 SHIMS = r'''
 // ---- shims local to the decoder unit ----
+// A-fmt-11: Debug for HeaderMap is diagnostics only
+#[verifier::external]
+impl core::fmt::Debug for HeaderMap { fn fmt(&self, f: &mut core::fmt::Formatter<'_>) -> core::fmt::Result { unimplemented!() } }
 #[derive(Debug)]
 pub enum Frame { Data(Bytes), Trailers(HeaderMap) }
 impl Frame {
@@ -16,11 +20,6 @@ impl Frame {
     { match self { Frame::Data(b) => Ok(b), f => Err(f) } }
     pub fn into_trailers(self) -> (r: Result<HeaderMap, Frame>) ensures self is Trailers ==> r is Ok && r->Ok_0 == self->Trailers_0
     { match self { Frame::Trailers(b) => Ok(b), f => Err(f) } }
-}
-impl HeaderMap {
-    // A-http-01: HeaderMap::extend (contents not modelled in this unit)
-    #[verifier::external_body]
-    pub fn extend(&mut self, other: HeaderMap) { unimplemented!() }
 }
 // The inner body with a ghost history: every DATA byte it has delivered so far, whether it reported its end,
 // and how often it was polled.
@@ -41,16 +40,6 @@ impl<'a> Pin<&'a mut Body> {
     #[verifier::external_body]
     pub fn poll_frame(self, cx: &mut Context) -> (r: Poll<Option<Result<Frame, Status>>>)
         ensures body_step(*old(self.p), *final(self.p), r)
-    { unimplemented!() }
-}
-// A-status-10: contract of crate::status::infer_grpc_status as a function of (trailers, http status); the function
-// itself is under contract in unit `status`.
-pub uninterp spec fn infer_spec(trailers: Option<HeaderMap>, sc: StatusCode) -> Result<(), Option<Status>>;
-pub mod status {
-    use super::*;
-    #[verifier::external_body]
-    pub fn infer_grpc_status(trailers: Option<&HeaderMap>, status_code: StatusCode) -> (r: Result<(), Option<Status>>)
-        ensures r == infer_spec(match trailers { Some(t) => Some(*t), None => None }, status_code)
     { unimplemented!() }
 }
 // Codec-side contract (ASSUMED about the user's Decoder, e.g. ProstDecoder): decode() reads the whole DecodeBuf and
@@ -121,8 +110,11 @@ pub open spec fn plain_payload(w: Seq<u8>, encoding: Option<CompressionEncoding>
 
 def build():
     u = Unit('decode', ['C01', 'C05', 'C06', 'C07'])
-    u.prelude('base.rs', 'wire.rs', 'bytes.rs')
-    u.item('tonic/src/status.rs', 'enum', 'Code', derives='Clone, Copy, PartialEq, Eq')
+    common.http_base(u)
+    u.prelude('wire.rs')
+    common.metadata_core(u)
+    common.status_decls(u)
+    common.status_assumed(u)
     u.item('tonic/src/codec/compression.rs', 'enum', 'CompressionEncoding', derives='Clone, Copy, PartialEq, Eq')
     u.prelude('codec_specs.rs', 'codec.rs')
     u.const_guard('tonic/src/codec/mod.rs', 'HEADER_SIZE', 'const HEADER_SIZE: usize = std::mem::size_of::<u8>() + std::mem::size_of::<u32>();', 'pub const HEADER_SIZE: usize = 5;')
@@ -203,12 +195,17 @@ def build():
          ensures=[
              Clause('R_status_from_trailers',
                     '''match old(self).direction {
-                Direction::Response(sc) => match infer_spec(old(self).trailers, sc) {
-                    Err(Some(e)) => r == Err::<(), Status>(e),
-                    _ => r is Ok && final(self).trailers == old(self).trailers,
-                },
+                Direction::Response(sc) => (old(self).trailers is Some && old(self).trailers->Some_0@.contains_key("grpc-status"@)) ==> (match r {
+                    Ok(()) => msg_ok(old(self).trailers->Some_0@) && det_ok(old(self).trailers->Some_0@) && code_of_bytes(old(self).trailers->Some_0@["grpc-status"@][0]) == Code::Ok && final(self).trailers == old(self).trailers,
+                    Err(st) => read(old(self).trailers->Some_0@, Some(st)) && st.code != Code::Ok,
+                }),
                 _ => r is Ok && final(self).trailers == old(self).trailers,
             }''', ['C02', 'C07']),
+             Clause('R_no_trailers_means_http_status_table',
+                    '''old(self).direction is Response && (old(self).trailers is None || !old(self).trailers->Some_0@.contains_key("grpc-status"@)) ==> (match r {
+                    Ok(()) => old(self).direction->Response_0.0 == 200,
+                    Err(st) => old(self).direction->Response_0.0 != 200 && st.code == code_of_http(old(self).direction->Response_0),
+                })''', ['C02', 'C04']),
              Clause('R_frame', 'final(self).buf == old(self).buf && final(self).state == old(self).state && final(self).body == old(self).body && final(self).same_config(old(self))', ['C07']),
          ])
     u.close('}')
@@ -288,7 +285,7 @@ def build():
                 &&& old(self).decoder.dec(plain_payload(w, {ENC})->Some_0) == Some(m)
                 &&& final(self).inner.state is ReadHeader
                 &&& final(self).inner.unparsed() == after_first(w)
-            }})''', ['C01', 'C07']),
+            }})''', ['C01', 'C02', 'C07']),
              Clause('P1_pending_keeps_everything',
                     f'''!(old(self).inner.state is Error) && r is Pending ==> !(final(self).inner.state is Error)
                 && final(self).inner.unparsed() == {W} && !complete({W})''', ['C01', 'C07']),
